@@ -28,6 +28,15 @@ Proof.
 Qed.
 Print Assumptions C06_spec_ok_reading.
 
+(* [iso] is an equivalence (reflexive by the identity): the routing theorems can be read in either direction *)
+Theorem C06_iso_sym : forall A B, iso A B -> iso B A.
+Proof. exact iso_sym. Qed.
+Print Assumptions C06_iso_sym.
+
+Theorem C06_iso_trans : forall A B C, iso A B -> iso B C -> iso A C.
+Proof. exact iso_trans. Qed.
+Print Assumptions C06_iso_trans.
+
 (* ---- N-Quads, HexTuples: hold for every dataset ---- *)
 
 (* any number of graphs, IRI or blank-node names, shared triples, blank nodes
@@ -101,6 +110,14 @@ Theorem C06_jsonld_merges : forall D q,
     \/ (isb (snd q) = false /\ snd q <> 0%N /\ In (snd q) (ds_contexts D) /\ In q (d_quads D)).
 Proof. exact jsonld_roundtrip_In. Qed.
 Print Assumptions C06_jsonld_merges.
+
+(* inside finding F8b NOTHING ELSE happens, for every dataset: what comes back is exactly the
+   dataset with each blank-node-named graph folded into the default graph (labels kept).  The
+   correspondence check compares the implementation with this prediction on every JSON-LD case
+   that has such a graph (a KNOWN-FINDING needs model = implementation). *)
+Theorem C06_jsonld_only_merges : forall D, wfd D -> qseteq (roundtrip Jsonld D) (f8b_expected D).
+Proof. exact jsonld_only_merges. Qed.
+Print Assumptions C06_jsonld_only_merges.
 
 Definition jsonld_witness : dset :=
   {| d_ctxs := [0; 209]%N; d_quads := [((2, 6, 4), 209)]%N |}.
